@@ -250,7 +250,7 @@ func hangLimit() time.Duration {
 			return time.Duration(v) * time.Second
 		}
 	}
-	return 120 * time.Second
+	return 300 * time.Second
 }
 
 // ---------------------------------------------------------------- replay
@@ -711,6 +711,12 @@ func cmdCheck(id, tier string) int {
 		if code != exitViolation && replayPath != raw {
 			replayPath = raw
 			code, outp = runReplay(self, replayPath)
+		}
+		if code != exitViolation && strings.HasSuffix(g.first.v.Oracle, ".hang") {
+			// a slow run, not a hang: it finished when retried alone (DESIGN 2.8)
+			fmt.Printf("note: run %d at level %d exceeded the per-run watchdog in its worker but finished when retried alone; not a hang\n", g.first.idx, g.first.level)
+			a.stats["slow_runs_retried"]++
+			continue
 		}
 		if code != exitViolation {
 			fmt.Fprintf(os.Stderr, "violation %s (run %d, level %d) did not reproduce in a fresh process: harness problem\n%s\n", g.first.v.Oracle, g.first.idx, g.first.level, outp)
